@@ -85,11 +85,37 @@ def _observe(obj, values):
     return obj.to_numpy(values)
 
 
+def _short_lived_twin(env, recipe, pt):
+    """An earlier, short-lived model with the same names and shapes whose square matrices have the OTHER symmetry flag: built,
+    evaluated once, dropped and collected right before the judged model is built (whose objects then tend to be allocated at
+    the addresses just freed).  Whatever optyx remembers of the twin by id() must not reach the judged model."""
+    import copy
+    import gc
+    sq = [m for m in env["matrices"] if m["r"] == m["c"] and m["r"] > 1]
+    if not sq or not any(n[0] == "mvar" for n in walk(recipe)):
+        return False
+    env2 = copy.deepcopy(env)
+    for m in env2["matrices"]:
+        if m["r"] == m["c"]:
+            m["sym"] = not m.get("sym")
+    try:
+        b2 = BuildAlg(env2)
+        o2 = b2.ev(recipe)
+        _observe(o2, {**{k: 0.5 for k in all_var_names(env2)}, **{k: v for k, v in pt.items()}})
+    except Exception:
+        pass
+    b2 = o2 = None
+    gc.collect()
+    return True
+
+
 def _check_value(case):
     env, recipe = case["env"], case["recipe"]
     pv = pvals_of(env)
     classes = ["top:" + case["top"]] + sorted({"node:" + n[0] for n in walk(recipe)})
     with quiet():
+        if _short_lived_twin(env, recipe, case["points"][0]):
+            classes.append("after-short-lived-twin-of-other-symmetry")
         try:
             b = BuildAlg(env)
             obj = b.ev(recipe)
